@@ -13,7 +13,7 @@ from mc.canon import short
 
 ID = 'C16'
 LEVEL = 'model_checking'
-RULE = ('E2 explicit-state exploration of library state: events (42: '
+RULE = ('E2 explicit-state exploration of library state: events (44: '
         'construct with defaults, marshal, unmarshal valid, unmarshal '
         'invalid, failing constructions, the 3 toggles, call-then-mutate-'
         'the-result composites) applied to a freshly imported pamqp; state = '
